@@ -5,6 +5,7 @@ CONSTANTS
   Mode = "rotate"
   Variants = {0}
   KeyLens <- KeyLensAll
+  AddrMode = "off"
   TamperMode = "singles"
   TamperVariants = {0}
   TamperAllVariants = {}
